@@ -236,7 +236,7 @@ func (w *c10World) request(status func(key string) int) {
 	}
 	rec := simkit.NewRecorder()
 	req := (&http.Request{Method: "GET", URL: &url.URL{Path: "/"}, Header: http.Header{}, RemoteAddr: "10.0.0.1:1"}).WithContext(context.WithValue(context.Background(), ctxKey{}, status))
-	w.rb.ServeHTTP(rec, req)
+	w.r.Guard("request through the rebalancer", func() { w.rb.ServeHTTP(rec, req) })
 	eff := w.snapshot()
 	w.checkRange(eff, "after a request")
 	if len(w.model.positive()) > 0 && rec.Status >= 500 && status != nil && !w.scripted {
@@ -494,7 +494,7 @@ func c10prop(r *simkit.Run) {
 		case "ratings":
 			setRatings()
 		case "admin":
-			switch rapid.IntRange(0, 3).Draw(rt, "admin") {
+			switch rapid.IntRange(0, 4).Draw(rt, "admin") {
 			case 0: // re-weight an existing server (possibly to 0)
 				if len(w.model.m) > 0 {
 					m := w.model.m[rapid.IntRange(0, len(w.model.m)-1).Draw(rt, "which")]
@@ -518,6 +518,19 @@ func c10prop(r *simkit.Run) {
 					}
 					w.model.remove(mustURL(m.str))
 					w.afterAdmin("remove "+m.str, true)
+				}
+			case 3: // an update the balancer refuses (negative weight): must fail and change nothing
+				if len(w.model.m) > 0 {
+					m := w.model.m[rapid.IntRange(0, len(w.model.m)-1).Draw(rt, "which")]
+					w.pending = m.key
+					if err := rb.UpsertServer(mustURL(m.str), roundrobin.Weight(-1)); err == nil {
+						w.fail("refused-update-accepted", "UpsertServer(%s, Weight(-1)) returned no error", m.str)
+					}
+					eff := w.snapshot()
+					if !sameWeights(eff, w.eff) {
+						w.fail("refused-update-changed-weights", "UpsertServer(%s, Weight(-1)) failed but the effective weights went %v -> %v", m.str, w.eff, eff)
+					}
+					w.note("refused upsert %s w=-1", m.str)
 				}
 			default: // upsert without options: no change expected, but it counts as an admin call
 				if len(w.model.m) > 0 {
